@@ -317,6 +317,11 @@ func (v *Verifier) VerifyFunc(fn *ssa.Function, opts UnitOpts, so *SolveOpts) *U
 					dead = false
 				}
 			}
+			if dead && os.Getenv("GOVC_DUMP_DEAD") != "" {
+				for k, q := range u.BlockProbes[i] {
+					os.WriteFile(fmt.Sprintf("%s/dead_%d_%d.smt2", os.Getenv("GOVC_DUMP_DEAD"), i, k), []byte(q.SMT(u.W.Prelude())), 0o644)
+				}
+			}
 			if dead {
 				pos := ""
 				for _, in := range fn.Blocks[i].Instrs {
